@@ -249,8 +249,9 @@ def mon_pool(h, obs, prop):
                 gkv = [w for w in ws[1:4] if w.startswith("g=")]
                 if gkv:
                     group_of.setdefault(hh, int(gkv[0][2:]))
-        if k in ("commitlast", "commitready") and o.startswith("ok"):
-            for hh in (o[3:].split(",") if len(o) > 3 else []):
+        if k in ("commitlast", "commitready", "commit") and o.startswith("ok"):
+            # (`commit h…` names the hashes itself; the other two answer with the hashes they picked)
+            for hh in (ws[1:] if k == "commit" else (o[3:].split(",") if len(o) > 3 else [])):
                 ptr = by_hash.get(hh)
                 committed.add(hh)
                 if ptr:
